@@ -7,6 +7,7 @@
   for them), `decide` fails here.
 -/
 import LccModel.Model.Matcher
+import LccModel.Model.MatcherIsJson
 import LccModel.Generated.C16Tables
 
 namespace LccModel.Generated.C16
@@ -15,5 +16,10 @@ open LccModel.Matcher
 /-- `jsonify({k1: 0, k2: 1})` (one entry when `k1 is k2`); `none` = the real function raised. -/
 theorem jsonify_keys_agrees : ∀ r ∈ jsonifyKeysTable,
     some ((jsonify (.dict r.1 [.int 0, .int 1])).map Char.toNat) = r.2 := by decide +kernel
+
+/-- `is_json(expected).matches(actual).is_successful` of the real code on every ordered pair of a universe that holds the
+    bool / int / float forms of 0, 1, 2 at the top, in lists, in nested lists and below a dict key (676 rows; `none` = raised or
+    a non-bool outcome) is Python's `==` — whatever the two documents look like when printed. -/
+theorem is_json_agrees : ∀ r ∈ isJsonTable, some (isJsonMatch (fun _ _ => []) r.1.1 r.1.2).ok = r.2 := by decide +kernel
 
 end LccModel.Generated.C16
